@@ -10,8 +10,14 @@
 EXTENDS FinamBase, TLC
 
 Scale(u) == CASE u = "m" -> <<1, 1>> [] u = "meter" -> <<1, 1>> [] u = "km" -> <<1000, 1>>
-              [] u = "cm" -> <<1, 100>> [] u = "s" -> <<1, 1>>
-Dim(u) == IF u = "s" THEN "time" ELSE "length"
+              [] u = "cm" -> <<1, 100>> [] OTHER -> <<1, 1>>
+Dim(u) == CASE u = "s" -> "time" [] u \in {"K", "degC"} -> "temperature" [] OTHER -> "length"
+(* value v (rational) in units a expressed in units b; temperatures have an offset *)
+Conv(a, b, v) ==
+  IF Dim(a) = "temperature" THEN
+     LET k == IF a = "degC" THEN RAdd(v, <<27315, 100>>) ELSE v
+     IN IF b = "degC" THEN RSub(k, <<27315, 100>>) ELSE k
+  ELSE RMul(v, RDiv(Scale(a), Scale(b)))
 Compatible(a, b) == Dim(a) = Dim(b)
 Factor(a, b) == RDiv(Scale(a), Scale(b))          \* value in a  ->  value in b
 Canon(u) == IF u = "meter" THEN "m" ELSE u
@@ -20,6 +26,7 @@ GridForms == {"shaped", "timeaxis", "flat", "list", "masked", "wrongsize", "wron
 ScalarForms == {"scalar", "list1", "array1", "array2"}
 VectorForms == {"vec3", "vec3time", "matrix"}
 Units == {"m", "meter", "km", "cm", "s"}
+GridRForms == {"shaped", "timeaxis", "flat", "list"}
 
 Cases ==
   {[grid |-> g, form |-> f, pu |-> pu, ou |-> ou, iu |-> iu, om |-> "flex"] :
@@ -27,6 +34,12 @@ Cases ==
   (* the output's metadata carries a fixed mask: plain payloads get exactly that mask *)
   {[grid |-> g, form |-> f, pu |-> pu, ou |-> ou, iu |-> iu, om |-> "fixed"] :
      g \in {"g23"}, f \in {"shaped", "timeaxis", "flat", "list"}, pu \in {"", "m", "km", "cm", "s"}, ou \in {"m", "km"}, iu \in {"", "cm"}} \cup
+  (* the same field on a grid with reversed axes order (data shape (3, 2)) *)
+  {[grid |-> g, form |-> f, pu |-> pu, ou |-> ou, iu |-> iu, om |-> om] :
+     g \in {"g32r"}, f \in GridRForms, pu \in {"", "km"}, ou \in {"m"}, iu \in {"", "cm"}, om \in {"flex", "fixed"}} \cup
+  (* temperatures: conversion has an offset *)
+  {[grid |-> g, form |-> f, pu |-> pu, ou |-> ou, iu |-> iu, om |-> "flex"] :
+     g \in {"nogrid"}, f \in {"scalar", "array1"}, pu \in {"", "degC", "K"}, ou \in {"K", "degC"}, iu \in {"", "K", "degC"}} \cup
   {[grid |-> g, form |-> f, pu |-> pu, ou |-> ou, iu |-> iu, om |-> "flex"] :
      g \in {"nogrid"}, f \in ScalarForms, pu \in {"", "m", "meter", "km", "cm", "s"}, ou \in {"m", "km"}, iu \in {"", "m", "km", "cm"}} \cup
   {[grid |-> g, form |-> f, pu |-> pu, ou |-> ou, iu |-> iu, om |-> "flex"] :
@@ -34,24 +47,26 @@ Cases ==
 
 FormOK(c) ==
   CASE c.grid = "g23"     -> c.form \in {"shaped", "timeaxis", "flat", "list", "masked"}
+    [] c.grid = "g32r"    -> TRUE
     [] c.grid = "nogrid"  -> c.form \in {"scalar", "list1", "array1"}
     [] c.grid = "nogrid1" -> c.form \in {"vec3", "vec3time"}
 
-Shape(c) == CASE c.grid = "g23" -> <<1, 2, 3>> [] c.grid = "nogrid" -> <<1>> [] c.grid = "nogrid1" -> <<1, 3>>
+Shape(c) == CASE c.grid = "g23" -> <<1, 2, 3>> [] c.grid = "g32r" -> <<1, 3, 2>> [] c.grid = "nogrid" -> <<1>> [] c.grid = "nogrid1" -> <<1, 3>>
 
-(* [res, shape, fac (published number -> received number), units, masked]   *)
+(* [res, shape, val (what the published number 2 arrives as), units, masked] *)
 Expect(c) ==
   LET pu == IF c.pu = "" THEN c.ou ELSE c.pu          \* plain numbers are in the output's units
       iu == IF c.iu = "" THEN c.ou ELSE c.iu
   IN IF ~Compatible(pu, c.ou) \/ ~FormOK(c)
-     THEN [res |-> "FinamDataError", shape |-> <<>>, fac |-> <<0, 1>>, units |-> "", masked |-> FALSE]
-     ELSE [res |-> "ok", shape |-> Shape(c), fac |-> Factor(pu, iu), units |-> Canon(iu),
+     THEN [res |-> "FinamDataError", shape |-> <<>>, val |-> <<0, 1>>, units |-> "", masked |-> FALSE]
+     ELSE [res |-> "ok", shape |-> Shape(c), val |-> Conv(pu, iu, <<2, 1>>), units |-> Canon(iu),
            masked |-> c.form = "masked" \/ c.om = "fixed"]
 
 (* theorems checked by TLC over the whole case space *)
 ASSUME \A a \in Units, b \in Units, d \in Units :
          (Compatible(a, b) /\ Compatible(b, d)) => RMul(Factor(a, b), Factor(b, d)) = Factor(a, d)
 ASSUME \A a \in Units, b \in Units : Compatible(a, b) => RMul(Factor(a, b), Factor(b, a)) = <<1, 1>>
-ASSUME \A c \in Cases : (Expect(c).res = "ok") => (Expect(c).shape[1] = 1 /\ Expect(c).fac[1] > 0)
+ASSUME \A c \in Cases : (Expect(c).res = "ok") => (Expect(c).shape[1] = 1 /\ Expect(c).val[2] > 0)
+ASSUME \A v \in {0, 2, 100} : Conv("degC", "K", Conv("K", "degC", <<v, 1>>)) = <<v, 1>>
 
 =============================================================================
